@@ -374,6 +374,24 @@ pub fn c03(tier: Tier) -> i32 {
             vec![file("E1.sol", b""), file("E2.sol", b""), file("Blank.sol", b" \n\t\r\n"), file("Z.sol", pq), d("zz", vec![file("Y.sol", p)])],
         ];
         trees.extend(extra);
+        // contents in other layouts (the directory result must equal the per-file result whatever the bytes of an eligible
+        // file are): a long file with CRLF line ends and findings beyond 1 KB and beyond 4 KB, the same after multi-byte
+        // comments, classic CR-only line ends, no final line end; and files that are Solidity only when letter case is ignored
+        {
+            let mut long = String::from("pragma solidity ^0.8.0;\n");
+            for k in 0..40 {
+                long.push_str(&format!("contract B{k} {{\n  uint256 private hidden{k};\n  function g(uint256 a, uint256 b, address t) public payable returns (bool) {{\n    IERC20(t).transfer(t, a - b);\n    return a >= b;\n  }}\n  constructor() {{}}\n}}\n"));
+            }
+            let crlf = long.replace('\n', "\r\n");
+            let wide = format!("// \u{e9}\u{4e2d}\u{6587}\u{1f600} \u{43f}\u{440}\n/* \u{e9}\n\u{4e2d} */\n{}", long).replace("contract B7 ", "/* \u{1f600}\u{1f600} */ contract B7 ");
+            let cr = long.replace('\n', "\r");
+            let noeol = long.trim_end().to_string();
+            let mixed = long.replace("{\n", "{\r\n");
+            trees.push(vec![file("Crlf.sol", crlf.as_bytes()), d("sub", vec![file("Wide.sol", wide.as_bytes()), file("NoEol.sol", noeol.as_bytes())]), file("A.sol", p)]);
+            trees.push(vec![file("Cr.sol", cr.as_bytes()), file("Mixed.sol", mixed.as_bytes()), d("z", vec![file("Crlf.sol", crlf.as_bytes())])]);
+            trees.push(vec![file("Long.sol", long.as_bytes()), file("Crlf.sol", crlf.as_bytes())]);
+            trees.push(vec![file("OLDVAULT.SOL", pq), file("Backup.Sol", pq), file("Real.sol", p), d("old", vec![file("x.SOL", pq), file("y.sOl", p2), file("Z.sol", pq)])]);
+        }
         // files that refer to each other: imports between siblings (also cyclic, of itself, of a missing file, of a file in
         // a sub-directory) and a derived contract in another file that writes the base contract's variables
         let imp = |imports: &str, body: &str| format!("{}{}", imports, body);
